@@ -786,14 +786,21 @@ func (b *Builder) Finish() error {
 
 	b.finishedShards = map[string]string{}
 
+	if b.buildError != nil {
+		// Not everything is in place. Do not remove the shards we meant to
+		// replace: they may be all that is left of the repository.
+		return b.buildError
+	}
+
 	for p := range toDelete {
 		// Don't delete compound shards, set tombstones instead.
 		if b.opts.ShardMerging && strings.HasPrefix(filepath.Base(p), "compound-") {
 			if !strings.HasSuffix(p, ".zoekt") {
 				continue
 			}
-			err := SetTombstone(p, b.opts.RepositoryDescription.ID)
-			b.buildError = err
+			if err := SetTombstone(p, b.opts.RepositoryDescription.ID); err != nil {
+				b.buildError = err
+			}
 			continue
 		}
 		log.Printf("removing old shard file: %s", p)
